@@ -34,12 +34,32 @@ EXPLANATION += (' R-C04-9 (shared with R-C05-14): no HCM decision is reduced ove
 EXPLANATION += (' R-C04-8: the HCM case decisions use no relative tolerance (shared with R-C05-10), and nothing cached on the FKM-nonlinear recorder or detector survives a later recording call (memo rule: hand-written `if self._x is None` caches and caching decorators).')
 EXPLANATION += (' R-C04-10 (shared with R-C05-17): the representative assessment point of a multi-point sample is the first stored row everywhere; a first element taken after sort_index / sort_values / sample / reindex is a violation. R-C04-1 also rejects np.insert / np.append without a float conversion for the zero prefix (they keep a narrow or unsigned element type of the samples).')
 EXPLANATION += (' R-C04-11 (shared state-family rules, sa/statefam.py): in FKMNonlinearDetector.process no explicit raise / assert is reachable after a store to a detector attribute - a refused call must not advance the pass number.')
+EXPLANATION += (" R-C04-12: the rule R-C10-12 evaluated for this property, extended by: no method of the detector reads `<index>.levels[...]` (categories kept sorted by pandas) where the labels in their order of appearance are meant.")
 ASSUMPTIONS = ["the caller replays in pass 2 only loads of pass 1 (a fact about the caller's data)"]
 
 
 def run(ctx):
-    for r in (_r1, _r2, _r3, _r5, _r6, _r7, _r8, _r9, _r10, _r11):
+    for r in (_r1, _r2, _r3, _r5, _r6, _r7, _r8, _r9, _r10, _r11, _r12):
         ctx.attempt(r)
+
+
+def _r12(ctx):
+    """R-C04-12 (the rule R-C10-12 evaluated for this property): the load steps of a multi-point sequence are taken in their order of
+    appearance - no method of the detector re-orders pandas data by labels, and none reads the (sorted) categories of an index level
+    where the labels in sequence order are meant: every turning point would take its loads from another load step."""
+    from .c10 import label_reorderings
+    prog = ctx.prog
+    ctx.rule("R-C04-12", floor=1, what="the FKM nonlinear detector keeps the load steps in their order of appearance (shared with R-C10-12)")
+    ci = prog.cls(D.rstrip("."))
+    hits = 0
+    for name, defs in sorted(ci.methods.items()):
+        fi = defs[-1]
+        for c_, text in label_reorderings(fi.node):
+            hits += 1
+            ctx.violated(fi, c_, "FKMNonlinearDetector.%s takes pandas data in label order (%s): the turning points are positions in the sequence "
+                         "of load steps as they appear" % (name, text), text="label order in " + name)
+    if not hits:
+        ctx.holds(ci.key, None, "%d methods of the detector keep the order of appearance" % len(ci.methods))
 
 
 def _r11(ctx):
